@@ -370,6 +370,12 @@ def run(ck, F):
         ck.ok("R5", "no-panic", fb["span"], f"none of the {len(reach)} functions of the emitted module that the exchange reaches holds a panic-family "
               f"operation (index/slice, unwrap/expect, overflow assertion, explicit panic)", fn=short)
     ck.floor("R5", "functions of the emitted module reachable from the exchange", len(reach), 3)
+    # "to the service address": the helper posts to the `url` it is handed (R1); what the generated method hands it is the location
+    # written into the client's constructor, and that is the address of the port the client's binding belongs to (decided by C05.R5)
+    if not getattr(ck, "rule_", None):       # (not when this run is itself a part of C05's)
+        from rules import c05 as C05
+        from rules import c04 as C04
+        C05.run(C04._Sub(ck, "R1", lambda key: key == "location" or key.startswith("location"), only_rules=("R5",)), F)
 
 
 STEP_ERRORS = ("reqwest::Response::error_for_status_ref", "reqwest::Response::error_for_status", "reqwest::Response::text",
